@@ -78,6 +78,64 @@ def permutation [OfNat L 0] {n : Nat} (σ σinv : Fin n → Fin n) : Transform (
   fwd x := (fun i => x (σ i), 0)
   inv y := (fun i => y (σinv i), 0)
 
+/-! ### autoregressive and triangular (LU) layers -/
+
+/-- `n` applications of `f` (the `for _ in range(n)` loop of `AutoregressiveTransform.inverse`) -/
+def iterN {α : Type} (f : α → α) : Nat → α → α
+  | 0, a => a
+  | k + 1, a => f (iterN f k a)
+
+/-- one sweep of the inverse loop: `outputs = (inputs - shift(outputs)) / scale(outputs)`, all features at once -/
+def arStep [Sub K] [Div K] {n : Nat} (s t : Fin n → (Fin n → K) → K) (y x : Fin n → K) : Fin n → K :=
+  fun i => (y i - t i x) / s i x
+
+/-- Masked affine autoregressive layer (`MaskedAffineAutoregressiveTransform`, the MAF/MADE layer):
+forward in one pass `y i = s i x * x i + t i x` with log|det| `Σ lg (s i x)`; inverse by the literal loop — start from
+zeros, `n` sweeps of `arStep`, log|det| `-Σ lg (s i ·)` taken from the parameters of the last sweep.
+`s i`, `t i` are arbitrary functions of the whole point here; that they only look at the strict prefix `x 0 … x (i-1)`
+is the hypothesis `PrefixDep` of the theorems (what MADE's masks enforce). -/
+def autoregressive [Add K] [Sub K] [Mul K] [Div K] [OfNat K 0] [Add L] [Neg L] [Zero L] {n : Nat}
+    (lg : K → L) (s t : Fin n → (Fin n → K) → K) : Transform (Fin n → K) (Fin n → K) L where
+  fwd x := (fun i => x i * s i x + t i x, scaleLogSum lg (fun _ => true) (fun i => s i x))
+  inv y :=
+    let prev := iterN (arStep s t y) (n - 1) (fun _ => 0)
+    (arStep s t y prev, -(scaleLogSum lg (fun _ => true) (fun i => s i prev)))
+
+/-- `f i` only depends on the strict prefix of its argument -/
+def PrefixDep {n : Nat} {β : Type} (f : Fin n → (Fin n → K) → β) : Prop :=
+  ∀ i x x', (∀ j : Fin n, j.val < i.val → x j = x' j) → f i x = f i x'
+
+/-- `Σ_{j < i} A i j * x j`: the strictly-lower part of row `i` applied to `x` -/
+def lowerRow [Add K] [Mul K] [Zero K] {n : Nat} (A : Fin n → Fin n → K) (x : Fin n → K) (i : Fin n) : K :=
+  (List.ofFn fun j : Fin n => if j.val < i.val then A i j * x j else 0).sum
+
+/-- lower-triangular affine map `y i = d i * x i + Σ_{j<i} A i j * x j + b i` as the autoregressive layer with
+constant scales `d` and affine shifts; its inverse loop is forward substitution -/
+def triLower [Add K] [Sub K] [Mul K] [Div K] [Zero K] [Add L] [Neg L] [Zero L] {n : Nat}
+    (lg : K → L) (d : Fin n → K) (A : Fin n → Fin n → K) (b : Fin n → K) : Transform (Fin n → K) (Fin n → K) L :=
+  autoregressive lg (fun i _ => d i) (fun i x => lowerRow A x i + b i)
+
+/-- index reversal `i ↦ n-1-i` -/
+def finRev {n : Nat} (i : Fin n) : Fin n := ⟨n - 1 - i.val, by have := i.isLt; omega⟩
+
+/-- upper-triangular affine map `y i = d i * x i + Σ_{j>i} A i j * x j + b i`: the lower-triangular map of the
+reversed matrix between two index reversals (back substitution) -/
+def triUpper [Add K] [Sub K] [Mul K] [Div K] [Zero K] [Add L] [Neg L] [Zero L] {n : Nat}
+    (lg : K → L) (d : Fin n → K) (A : Fin n → Fin n → K) (b : Fin n → K) : Transform (Fin n → K) (Fin n → K) L :=
+  (permutation finRev finRev).comp
+    ((triLower lg (fun i => d (finRev i)) (fun i j => A (finRev i) (finRev j)) (fun i => b (finRev i))).comp
+      (permutation finRev finRev))
+
+/-- `LULinear`: `outputs = lower @ (upper @ x) + bias` with unit-diagonal `lower` (strict part `Lo`) and `upper` with
+diagonal `ud` (strict part `Up`); log|det| is `Σ lg (ud i)` forwards and its negative backwards, as the code
+reports it (independent of the point); the inverse is the two triangular solves. -/
+def luLinear [Add K] [Sub K] [Mul K] [Div K] [Zero K] [OfNat K 1] [Add L] [Neg L] [Zero L] {n : Nat}
+    (lg : K → L) (Lo : Fin n → Fin n → K) (ud : Fin n → K) (Up : Fin n → Fin n → K) (b : Fin n → K) :
+    Transform (Fin n → K) (Fin n → K) L :=
+  let C := (triUpper lg ud Up (fun _ => 0)).comp (triLower lg (fun _ => 1) Lo b)
+  { fwd := fun x => ((C.fwd x).1, scaleLogSum lg (fun _ => true) ud)
+    inv := fun y => ((C.inv y).1, -(scaleLogSum lg (fun _ => true) ud)) }
+
 /-! ### `nessai.flows.base.NFlow` -/
 
 /-- an `NFlow`: a transform and the base distribution's `log_prob` -/
